@@ -1680,6 +1680,8 @@ class DtsAccessor:
                 (mc_sample_size, no, nt), chunks={0: -1, 1: "auto", 2: "auto"}
             ).chunks
 
+        sections = result.dts.sections
+
         if exclude_parameter_uncertainty:
             # Exclude parameter uncertainty if p_cov == False
             gamma = p_val[0]
@@ -1713,7 +1715,6 @@ class DtsAccessor:
                 params["talpha_bw_mc"] = (("x", "time"), ta_bw_arr)
 
         else:
-            sections = result.dts.sections
             ix_sec = self.ufunc_per_section(
                 sections=sections, x_indices=True, calc_per="all"
             )
@@ -1747,7 +1748,7 @@ class DtsAccessor:
 
             not_ix_sec = np.array([i for i in range(no) if i not in ix_sec])
 
-            if np.any(not_ix_sec):
+            if not_ix_sec.size > 0:
                 not_alpha_val = p_val[2 * nt + 1 + not_ix_sec]
                 not_alpha_var = p_cov[2 * nt + 1 + not_ix_sec, 2 * nt + 1 + not_ix_sec]
 
